@@ -41,42 +41,52 @@ theorem text_whole (e : StrEnc) (buf : Bytes) (h1 : optTruthy e.leadingSize = fa
   unfold StrEnc.extractText
   simp [h1, h2]
 
-theorem bytesIndex_go_spec (needle : Bytes) (h : Bytes) (i k : Nat) (hk : bytesIndex.go needle h i = some k) :
-    i ≤ k ∧ k - i ≤ h.length ∧ needle.isPrefixOf (h.drop (k - i)) = true ∧
-    ∀ j, j < k - i → needle.isPrefixOf (h.drop j) = false := by
+theorem bytesIndex_go_spec (w : Nat) (needle : Bytes) (h : Bytes) (i k : Nat) (hk : bytesIndex.go w needle h i = some k) :
+    i ≤ k ∧ k - i ≤ h.length ∧ k % w = 0 ∧ needle.isPrefixOf (h.drop (k - i)) = true ∧
+    ∀ j, j < k - i → (i + j) % w = 0 → needle.isPrefixOf (h.drop j) = false := by
   induction h generalizing i with
   | nil =>
     unfold bytesIndex.go at hk
     split at hk
     · rename_i hp
       injection hk with hk; subst hk
-      simp [hp]
+      simp only [Bool.and_eq_true, beq_iff_eq] at hp
+      simp [hp.1, hp.2]
     · simp at hk
   | cons a t ih =>
     unfold bytesIndex.go at hk
     split at hk
     · rename_i hp
       injection hk with hk; subst hk
-      simp [hp]
+      simp only [Bool.and_eq_true, beq_iff_eq] at hp
+      simp [hp.1, hp.2]
     · rename_i hp
       simp only at hk
-      obtain ⟨i1, i2, i3, i4⟩ := ih (i + 1) hk
+      obtain ⟨i1, i2, i3, i4, i5⟩ := ih (i + 1) hk
       have e : k - i = (k - (i + 1)) + 1 := by omega
-      refine ⟨by omega, by simp; omega, by rw [e]; simpa using i3, ?_⟩
-      intro j hj
+      refine ⟨by omega, by simp; omega, i3, by rw [e]; simpa using i4, ?_⟩
+      intro j hj hjw
       cases j with
-      | zero => simp only [List.drop_zero]; exact (Bool.not_eq_true _).mp hp
-      | succ j' => simp; exact i4 j' (by omega)
+      | zero =>
+        simp only [List.drop_zero]
+        simp only [Nat.add_zero] at hjw
+        simp only [Bool.and_eq_true, beq_iff_eq, not_and, Bool.not_eq_true] at hp
+        exact hp hjw
+      | succ j' =>
+        simp only [List.drop_succ_cons]
+        exact i5 j' (by omega) (by rw [← hjw]; congr 1; omega)
 
-/-- Terminated strings: the value is the decoded part of the buffer before the first occurrence of the
-    termination bytes. -/
+/-- Terminated strings: the value is the decoded part of the buffer before the first termination *character* — the
+    first occurrence of the termination bytes that starts on a code-unit boundary of the encoding (every byte offset
+    for the single-byte codecs and UTF-8; even offsets for UTF-16, multiples of four for UTF-32). -/
 theorem text_terminated (e : StrEnc) (buf t : Bytes) (i : Nat) (h1 : optTruthy e.leadingSize = false)
-    (h2 : e.termChar = some t) (hi : bytesIndex buf t = some i) :
+    (h2 : e.termChar = some t) (hi : bytesIndex e.unitWidth buf t = some i) :
     e.extractText buf = decodeOrErr e.codec (buf.take i) ∧
-    i ≤ buf.length ∧ t.isPrefixOf (buf.drop i) = true ∧ ∀ j, j < i → t.isPrefixOf (buf.drop j) = false := by
-  obtain ⟨_, g2, g3, g4⟩ := bytesIndex_go_spec t buf 0 i hi
-  simp only [Nat.sub_zero] at g2 g3 g4
-  refine ⟨?_, g2, g3, g4⟩
+    i ≤ buf.length ∧ i % e.unitWidth = 0 ∧ t.isPrefixOf (buf.drop i) = true ∧
+    ∀ j, j < i → j % e.unitWidth = 0 → t.isPrefixOf (buf.drop j) = false := by
+  obtain ⟨_, g2, g3, g4, g5⟩ := bytesIndex_go_spec e.unitWidth t buf 0 i hi
+  simp only [Nat.sub_zero, Nat.zero_add] at g2 g4 g5
+  refine ⟨?_, g2, g3, g4, g5⟩
   unfold StrEnc.extractText
   simp only [h1, h2, hi, Bool.false_eq_true, if_false]
   have hr := readAsBytes_spec buf 0 (i * 8) (by omega)
@@ -92,6 +102,11 @@ theorem text_terminated (e : StrEnc) (buf t : Bytes) (i : Nat) (h1 : optTruthy e
   have := toBytesBE_fromBytesBE (buf.take i)
   rw [List.length_take, Nat.min_eq_left g2] at this
   exact this
+
+/-- The witness of the repaired defect: in UTF-16BE the bytes `41 00 58 41 00 58` hold the terminator `00 58` ("X")
+    at byte offsets 1 (straddling two characters) and 4 (a character); the text ends at offset 4. -/
+example : bytesIndex 2 [0x41, 0x00, 0x58, 0x41, 0x00, 0x58, 0x00, 0x00] [0x00, 0x58] = some 4 := by decide
+example : bytesIndex 1 [0x41, 0x00, 0x58, 0x41, 0x00, 0x58, 0x00, 0x00] [0x00, 0x58] = some 1 := by decide
 
 /-- Leading-size strings: the size tag is read from the *buffer*, and the value is the decoding of exactly the
     `strlen` bits that follow it. -/
@@ -208,6 +223,6 @@ theorem cursor_string (e : StrEnc) (p : Pkt) (v : Param) (r' : Raw) (h : e.parse
 
 /-- Non-vacuity: a 12-bit string field is right-padded with four zero bits. -/
 example : padBits 12 = 4 := by decide
-example : bytesIndex [0x41, 0x42, 0x00, 0x43, 0x00] [0x00] = some 2 := by decide
+example : bytesIndex 1 [0x41, 0x42, 0x00, 0x43, 0x00] [0x00] = some 2 := by decide
 
 end Spp.C07
